@@ -87,7 +87,9 @@ CFG = dict(
          "omitted min_periods is compared for every length (the model reproduces the clamp of DESIGN 5.3); tags count rescans, "
          "rescans with a null newcomer and all-null windows per case",
     theorem_hint="Props/C03.v: C03_ts_vmin, C03_ts_vmax, C03_ts_vargmin, C03_ts_vargmax, C03_cached_extreme_invariant, "
-                 "C03_ts_vrank, C03_ts_vzscore, C03_ts_vminmaxnorm",
+                 "C03_ts_vrank, C03_ts_vzscore, C03_ts_vminmaxnorm; every ordered carrier: C03_ts_vmin_ordered, "
+                 "C03_ts_vmax_ordered, C03_ts_vargmin_ordered, C03_ts_vargmax_ordered, C03_cached_extreme_invariant_ordered, "
+                 "C03_ts_vrank_ordered, C03_order_laws_Z, C03_order_laws_real",
     level_text="Proof (Coq): for EVERY series of length >= 1 over any null dictionary with integer elements, window >= 1, "
                "min_periods, position and both driver bodies the model of cmp.rs returns without panic and ts_vmin / ts_vmax = "
                "least / greatest valid element of the window (null when none), ts_vargmin / ts_vargmax = 1-based offset of the "
@@ -97,13 +99,31 @@ CFG = dict(
                "valid window without the current element, reversed and pct forms (option R); ts_vzscore = (x-mean)/sample-std, "
                "null iff x null / masked / population variance <= EPS (option R); ts_vminmaxnorm = (x-min)/(max-min) of the valid "
                "window, null iff x null / max = min / masked, through the invariant of the lazily re-searched (max, min) cache, "
-               "for elements within the sentinels T::min_()/max_() (option R). Nothing is partial. The model is tied to the code by ~40k differential cases per quick run.",
+               "for elements within the sentinels T::min_()/max_() (option R). "
+               "EVERY ORDERED CARRIER (C03_*_ordered, 25 obligations): the extrema, arg-extrema, cached-extreme invariant, "
+               "fresh-or-stale and rank theorems are re-proved for ANY carrier A whose nltb / neqb / nleb satisfy the record OrdLaws "
+               "on its non-NaN elements (strict weak order: asymmetric + co-transitive, neqb its equivalence, nleb the complement of "
+               "the converse; a Section hypothesis, never an axiom), ANY null dictionary IsNone T A and any series whose valid "
+               "elements are not NaN (automatic for integers and for NaN-is-null floats; excludes Some(NaN) of Option<f64>, DESIGN 5.4); "
+               "sort_cmp / sort_cmp_rev = the null-last order of < / of its converse there; specification in the carrier's own "
+               "comparisons (gmin / gmax = the LAST among equivalent extremes, gargmin_spec, gcount_lt/eq; C03_extreme_meaning); the "
+               "laws are proved for Z and for option R (Leibniz neqb: strict total order), the integer theorems are re-derived as "
+               "corollaries (C03_ordered_spec_at_Z: the generic spec IS list_min / argmin_spec / avg_rank at Z), the real instance "
+               "gives least / greatest real (C03_extreme_real_meaning); integer part axiom-free, real part stdlib Reals axioms. The laws "
+               "are ALSO proved for Coq's binary64 float (non-NaN values; +0 == -0 so only the weak-order form holds) from the standard "
+               "library's FloatAxioms eqb_spec / ltb_spec / leb_spec, giving ts_vmin/vmax/vargmin/vargmax_f64 for the float instance "
+               "the runs execute — kept in Proofs/CmpOrdFloat.v and NOT counted as obligations because the driver's axiom allow-list "
+               "has only the Reals axioms. Nothing is partial. The model is tied to the code by ~40k differential cases per quick run.",
     level_note="Trusted: Coq kernel (+ stdlib Reals axioms under the rank / z-score theorems only); the hand-written model of "
-               "cmp.rs / norm.rs / isnone.rs sort_cmp; floats are outside the theorems (integer carrier for the order kernels; "
-               "float runs are compared bit-exactly for min/max/arg/rank and within 1e-9 for the normalisations). The model "
+               "cmp.rs / norm.rs / isnone.rs sort_cmp; the order kernels are proved for every carrier satisfying OrdLaws (instances Z, "
+               "option R; binary64 only modulo the stdlib FloatAxioms, outside the counted obligations), float arithmetic (rank value, "
+               "normalisations) stays outside the theorems (float runs are compared bit-exactly for min/max/arg/rank and within 1e-9 "
+               "for the normalisations). The model "
                "follows the repaired code (two fix: commits, see KNOWN_FINDINGS.d/C03.txt).",
-    trusted=["order kernels are proved over Z; that f64 comparisons of non-NaN values form the same kind of total order is "
-             "checked by the float-instance correspondence runs only",
+    trusted=["order kernels are proved for every carrier satisfying OrdLaws (Z and option R proved axiom-free / Reals axioms); that "
+             "f64 comparisons of non-NaN values satisfy OrdLaws is proved in Proofs/CmpOrdFloat.v from the standard library's "
+             "FloatAxioms.eqb_spec / ltb_spec / leb_spec (specification of the primitive comparisons by SpecFloat.SFcompare) — not "
+             "a counted obligation; Some(NaN) elements of Option<f64> are outside the theorems (valid_not_nan premise)",
              "Reals axioms of the Coq standard library under C03_ts_vrank / C03_ts_vzscore (sig_forall_dec, sig_not_dec, "
              "functional_extensionality_dep)"],
     assumptions=["inputs finite and of bounded magnitude (DESIGN 5.2), canonical nulls (5.4); series length >= 1, window >= 1"],
